@@ -109,6 +109,7 @@ struct Plan {
   void ComputeCriticalPath();
   bool RefreshDyndepDependents(DependencyScan* scan,
                                const std::vector<Node*>& dyndep_nodes,
+                               std::set<Edge*>* dyndep_walk,
                                std::string* err);
   void UnmarkDependents(const Node* node, std::set<Node*>* dependents);
   bool AddSubTarget(const Node* node, const Node* dependent, std::string* err,
